@@ -194,11 +194,25 @@ def treg_eval():
     return h
 
 
-def system(k, slim=True):
-    """ImmuneSystem: train on a window, then inspect windows; memory fills organically"""
+NATURAL = {ThreatLevel.NONE: ResponseAction.IGNORE, ThreatLevel.SUSPICIOUS: ResponseAction.MONITOR,
+           ThreatLevel.CONFIRMED: ResponseAction.ISOLATE, ThreatLevel.CRITICAL: ResponseAction.SHUTDOWN}
+
+
+def system(k, slim=True, rules=0):
+    """ImmuneSystem: train on a window, then inspect windows; memory fills organically.  With rules>0 the
+    regulatory cell carries stub tolerance rules whose condition is chosen per evaluation, and the action the
+    SYSTEM returns (T-cell or memory recall, then tolerance) is compared with the natural recommendation
+    for the reported threat level: at most one step lower, CRITICAL untouched (C17.d-sys)."""
     def h(c):
         IS.statistics = TH.statistics = SymStatistics(c)
-        sys_ = ImmuneSystem(min_training_samples=3)
+        if rules:
+            def mk(j):
+                def cond(r, rec):
+                    return c.choice(f"rule{j}_applies", [True, False])
+                return SuppressionRule(name=f"r{j}", condition=cond, max_severity=ThreatLevel.CONFIRMED)
+            sys_ = ImmuneSystem(min_training_samples=3, treg=RegulatoryTCell(rules=[mk(j) for j in range(rules)]))
+        else:
+            sys_ = ImmuneSystem(min_training_samples=3)
         sys_.register_agent("a")
         cur = {}
 
@@ -269,6 +283,10 @@ def system(k, slim=True):
                 c.check("C17.a", b_and(viol, second), {"what": "CONFIRMED/CRITICAL without baseline violation AND second signal", **info})
             c.check("C17.b", b_or(viol, quiet), {"what": "in-baseline behaviour reported as a threat", **info})
             c.check("C17.c", b_or(b_not(pre_anergic), quiet), {"what": "anergic watcher reported a threat", **info})
+            if rules:
+                i0, i1 = ACTION_ORDER.index(NATURAL[r.threat_level]), ACTION_ORDER.index(r.action) if r.action in ACTION_ORDER else -9
+                c.check("C17.d-sys", i1 in (i0, i0 - 1) and (r.threat_level is not ThreatLevel.CRITICAL or i1 == i0),
+                        {"what": "system action more than one step below (or above) the recommendation for the reported threat level", **info})
     return h
 
 
@@ -277,8 +295,9 @@ HARNESSES = {
               "clauses": ["C17.a", "C17.b", "C17.c", "C17.a-streak"]},
     "treg": {"make": treg_eval, "witness_every": 5, "jobs": lambda tier: [{}], "clauses": ["C17.d", "C17.d-critical"]},
     "system": {"make": system, "witness_every": 17,
-               "jobs": lambda tier: [{"k": 2, "slim": True}] if tier == "quick" else [{"k": 3, "slim": True}, {"k": 1, "slim": False}],
-               "clauses": ["C17.a", "C17.b", "C17.c", "C17.e"]},
+               "jobs": lambda tier: [{"k": 2, "slim": True}, {"k": 2, "slim": True, "rules": 1}] if tier == "quick"
+               else [{"k": 3, "slim": True}, {"k": 3, "slim": True, "rules": 1}, {"k": 1, "slim": False}],
+               "clauses": ["C17.a", "C17.b", "C17.c", "C17.e", "C17.d-sys"]},
 }
 
 META = {
